@@ -1,7 +1,18 @@
 mod api;
 mod conc;
+mod core_replay;
+mod edits;
+mod minted;
 
 use api::*;
+use core_replay::*;
+use edits::Budget;
+use serde_json::{json, Value};
+use std::time::Instant;
+
+fn arg(args: &[String], name: &str) -> Option<String> {
+    args.iter().position(|a| a == name).and_then(|i| args.get(i + 1).cloned())
+}
 
 fn smoke() -> i32 {
     install_panic_hook();
@@ -13,8 +24,7 @@ fn smoke() -> i32 {
         let nonce = conc::random_bytes32(&mut r);
         let msg = conc::json_message(&mut r, 20, 2);
         let a = if pr.has_assertion() { Some("assert") } else { None };
-        let t = core_mint(pr, &km, &nonce, &msg, Some("foot"), a);
-        let tok = match t {
+        let tok = match core_mint(pr, &km, &nonce, &msg, Some("foot"), a) {
             Out::Ok(t) => t,
             o => {
                 println!("{} mint failed {:?}", pr.name(), o);
@@ -23,49 +33,262 @@ fn smoke() -> i32 {
             }
         };
         for layer in [Layer::Core, Layer::Generic, Layer::Prelude] {
-            let (o, calls) = present(pr, layer, &tok, &km, Some("foot"), a);
+            let (o, _) = present(pr, layer, &tok, &km, Some("foot"), a);
             let (o2, _) = present(pr, layer, &tok, &km2, Some("foot"), a);
-            println!("{} {:?} good={} calls={} wrongkey={}:{}", pr.name(), layer, o.class(), calls.len(), o2.class(), o2.detail());
             if !o.is_ok() || o2.class() != "pre" {
+                println!("{} {:?} good={} wrongkey={}", pr.name(), layer, o.class(), o2.class());
                 bad += 1;
             }
         }
-        for layer in [Layer::Generic, Layer::Prelude] {
-            let ops = vec![
-                BOp::SetClaim { key: "sub".into(), value: serde_json::json!("me"), via: Via::Typed },
-                BOp::SetClaim { key: "n".into(), value: serde_json::json!(5), via: Via::Typed },
-                BOp::SetFooter("foot".into()),
-                BOp::Build,
-                BOp::Build,
-            ];
-            let outs = run_builder(pr, layer, &ops, &km);
-            for o in outs {
-                match o {
-                    Out::Ok(t) => {
-                        let (o, _) = present(pr, Layer::Generic, &t, &km, Some("foot"), None);
-                        println!("  built via {:?}: parse {} {:?}", layer, o.class(), o.clone().ok());
-                        if !o.is_ok() {
-                            bad += 1;
-                        }
+    }
+    println!("smoke bad={}", bad);
+    bad
+}
+
+/// Writes the result summary of a replay run as JSON (read by bin/check)
+fn write_summary(path: &str, prop: &str, st: &Stats, wall: f64, extra: Value) {
+    let viol: Vec<Value> = st
+        .violations
+        .iter()
+        .map(|v| json!({"props": v.props, "what": v.what, "replay": v.replay}))
+        .collect();
+    let by_edit: serde_json::Map<String, Value> = st.by_edit.iter().map(|(k, v)| (k.clone(), json!(v))).collect();
+    let s = json!({
+        "prop": prop,
+        "cases": st.cases, "instances": st.instances, "tokens": st.tokens,
+        "presentations": st.presentations, "distinct": st.distinct.len(),
+        "expected_ok": st.ok_seen, "expected_reject": st.pre_seen,
+        "tolerated_accepted": st.tol_ok, "tolerated_rejected": st.tol_rej,
+        "mutants_by_edit_kind": by_edit,
+        "nviol": st.nviol, "violations": viol, "samples": st.samples,
+        "wall_s": wall, "extra": extra,
+    });
+    std::fs::write(path, serde_json::to_string_pretty(&s).unwrap()).expect("write summary");
+}
+
+const THREADS: usize = 12;
+
+fn replay_core(args: &[String]) -> i32 {
+    install_panic_hook();
+    let cases_path = arg(args, "--cases").expect("--cases");
+    let prop = arg(args, "--prop").expect("--prop");
+    let tier = arg(args, "--tier").unwrap_or_else(|| "quick".into());
+    let seed: u64 = arg(args, "--seed").and_then(|s| s.parse().ok()).unwrap_or(1);
+    let out = arg(args, "--out").expect("--out");
+    let thorough = tier == "thorough";
+    let t0 = Instant::now();
+    let cases = load_cases(&cases_path);
+    if !["C01", "C02", "C03", "C04", "C05", "C06", "C07"].contains(&prop.as_str()) {
+        eprintln!("replay-core: unknown property {}", prop);
+        return 2;
+    }
+    let mut st = Stats::default();
+    std::thread::scope(|sc| {
+        let mut hs = vec![];
+        for t in 0..THREADS {
+            let cases = &cases;
+            let prop = prop.clone();
+            hs.push(sc.spawn(move || core_plan(&prop, thorough, seed, cases, t)));
+        }
+        for h in hs {
+            st.merge(h.join().expect("replay thread"));
+        }
+    });
+    write_summary(&out, &prop, &st, t0.elapsed().as_secs_f64(), json!({"tier": tier, "seed": seed, "threads": THREADS}));
+    if st.nviol > 0 {
+        1
+    } else {
+        0
+    }
+}
+
+fn core_plan(prop: &str, thorough: bool, seed: u64, all_cases: &[CaseRec], tidx: usize) -> Stats {
+    let cases: Vec<&CaseRec> = all_cases.iter().enumerate().filter(|(i, _)| i % THREADS == tidx).map(|(_, c)| c).collect();
+    let mut r = conc::rng(seed, &format!("core-{}-{}", prop, tidx));
+    let mut rp = conc::rng(seed, &format!("pairs-{}", prop));
+    let pairs = conc::string_pairs(&mut rp, if thorough { 64 } else { 8 });
+    let mut st = Stats::default();
+    let all_layers = vec![Layer::Core, Layer::Generic, Layer::Prelude];
+    let want_prop = |props: &[String]| props.iter().any(|p| *p == prop);
+    let slow = |pr: &str| pr == "v1.public" || pr == "v3.public";
+
+    match prop {
+        "C01" | "C02" => {
+            let public = prop == "C02";
+            let mut lens: Vec<usize> = (0..=(if thorough { 1024 } else { 192 })).collect();
+            lens.extend(conc::boundary_lengths());
+            if thorough {
+                lens.extend([65535, 65536, 65537, 1 << 20]);
+            } else {
+                lens.extend([65535, 65536, 65537]);
+            }
+            lens.sort();
+            lens.dedup();
+            for case in cases.iter().copied().filter(|c| c.unaltered && c.mint.pr.ends_with("public") == public) {
+                let is_slow = slow(&case.mint.pr);
+                for (i, len) in lens.iter().enumerate() {
+                    // RSA / P-384: every 4th length in quick (all abstract cases are kept)
+                    if is_slow && !thorough && i % 4 != 0 && *len > 70 {
+                        continue;
                     }
-                    o => {
-                        println!("  build failed {:?}", o);
-                        bad += 1;
+                    if is_slow && *len > 70000 {
+                        continue;
+                    }
+                    // core layer: arbitrary UTF-8 of exactly `len` bytes
+                    let spec = InstSpec {
+                        msg_len: *len,
+                        msg_class: i,
+                        json_msg: false,
+                        pair_idx: i,
+                        k2: K2Mode::Random,
+                        k1_special: if i % 97 == 5 { 1 } else if i % 97 == 6 { 2 } else { 0 },
+                        seed_special: if i % 89 == 7 { 1 } else if i % 89 == 8 { 2 } else { 0 },
+                    };
+                    let inst = make_instance(&spec, &pairs, &mut r);
+                    let cfg = ReplayCfg {
+                        layers: vec![Layer::Core],
+                        budget: Budget { bits: 0, chars: 0, other: 0 },
+                        max_tokens: 1,
+                        offdiag_tokens: 0,
+                        max_violations: 20,
+                    };
+                    replay_case(case, &inst, &cfg, &want_prop, &mut r, &mut st);
+                    // parser layers: the message is a JSON object
+                    if i % 4 == 0 || *len < 70 {
+                        let spec = InstSpec { json_msg: true, ..spec };
+                        let inst = make_instance(&spec, &pairs, &mut r);
+                        let cfg = ReplayCfg { layers: vec![Layer::Generic, Layer::Prelude], ..cfg };
+                        replay_case(case, &inst, &cfg, &want_prop, &mut r, &mut st);
                     }
                 }
             }
         }
+        "C03" => {
+            let n_inst = if thorough { 4 } else { 2 };
+            for case in cases.iter().copied().filter(|c| !c.unaltered) {
+                let is_slow = slow(&case.mint.pr);
+                for i in 0..n_inst {
+                    let spec = InstSpec {
+                        msg_len: [21, 70, 3, 130][i % 4],
+                        msg_class: i,
+                        json_msg: true,
+                        pair_idx: i + st.cases,
+                        k2: K2Mode::Random,
+                        k1_special: 0,
+                        seed_special: 0,
+                    };
+                    let inst = make_instance(&spec, &pairs, &mut r);
+                    let full = thorough || !is_slow;
+                    let cfg = ReplayCfg {
+                        layers: all_layers.clone(),
+                        budget: Budget {
+                            bits: if full { usize::MAX } else { 96 },
+                            chars: if thorough { 4000 } else if is_slow { 60 } else { 400 },
+                            other: if thorough { 64 } else { 12 },
+                        },
+                        max_tokens: if thorough { 100000 } else if is_slow { 200 } else { 3000 },
+                        offdiag_tokens: if thorough { 40 } else { 6 },
+                        max_violations: 20,
+                    };
+                    replay_case(case, &inst, &cfg, &want_prop, &mut r, &mut st);
+                }
+            }
+        }
+        "C04" => {
+            for case in cases.iter().copied().filter(|c| c.unaltered) {
+                let is_slow = slow(&case.mint.pr);
+                let mut modes: Vec<K2Mode> = vec![K2Mode::Zero, K2Mode::Ones];
+                let nbits = if thorough || !is_slow { 256 } else { 32 };
+                modes.extend((0..nbits).map(|b| K2Mode::BitNeighbour(b * (256 / nbits))));
+                modes.extend((0..if thorough { 64 } else { 8 }).map(|_| K2Mode::Random));
+                for (i, m) in modes.iter().enumerate() {
+                    let spec = InstSpec {
+                        msg_len: [0, 1, 33, 64, 200][i % 5],
+                        msg_class: i,
+                        json_msg: true,
+                        pair_idx: i,
+                        k2: *m,
+                        k1_special: if i % 50 == 3 { 1 } else if i % 50 == 4 { 2 } else { 0 },
+                        seed_special: 0,
+                    };
+                    let inst = make_instance(&spec, &pairs, &mut r);
+                    let cfg = ReplayCfg {
+                        layers: if i % 8 == 0 { all_layers.clone() } else { vec![Layer::Core] },
+                        budget: Budget { bits: 0, chars: 0, other: 0 },
+                        max_tokens: 1,
+                        offdiag_tokens: 0,
+                        max_violations: 20,
+                    };
+                    replay_case(case, &inst, &cfg, &want_prop, &mut r, &mut st);
+                }
+            }
+        }
+        "C05" | "C06" | "C07" => {
+            let n = if thorough { pairs.len() * 2 } else { pairs.len() };
+            for case in cases.iter().copied() {
+                let relevant_edit = case.edits.iter().any(|e| {
+                    (prop == "C05" && e.k.starts_with("foot-")) || (prop == "C07" && e.k == "relabel")
+                });
+                if !(case.unaltered || relevant_edit) {
+                    continue;
+                }
+                if prop == "C06" && !(case.mint.pr.starts_with("v3") || case.mint.pr.starts_with("v4")) {
+                    continue;
+                }
+                let is_slow = slow(&case.mint.pr);
+                let n_inst = if prop == "C07" { if thorough { 16 } else { 4 } } else if is_slow && !thorough { n / 3 + 1 } else { n };
+                for i in 0..n_inst {
+                    let spec = InstSpec {
+                        msg_len: [17, 0, 64, 5][i % 4],
+                        msg_class: i,
+                        json_msg: true,
+                        pair_idx: i,
+                        k2: K2Mode::Random,
+                        k1_special: 0,
+                        seed_special: 0,
+                    };
+                    let inst = make_instance(&spec, &pairs, &mut r);
+                    let cfg = ReplayCfg {
+                        layers: all_layers.clone(),
+                        budget: Budget { bits: 64, chars: 200, other: 8 },
+                        max_tokens: if thorough { 2000 } else { 300 },
+                        offdiag_tokens: if thorough { 2000 } else { 300 },
+                        max_violations: 20,
+                    };
+                    replay_case(case, &inst, &cfg, &want_prop, &mut r, &mut st);
+                }
+            }
+        }
+        _ => {}
     }
-    println!("v4.local.AAAA -> {:?}", core_present(Proto::new(4, "local"), "v4.local.AAAA", &km, None, None));
-    bad
+    st
+}
+
+fn minted_checks(args: &[String]) -> i32 {
+    install_panic_hook();
+    let prop = arg(args, "--prop").expect("--prop");
+    let tier = arg(args, "--tier").unwrap_or_else(|| "quick".into());
+    let seed: u64 = arg(args, "--seed").and_then(|s| s.parse().ok()).unwrap_or(1);
+    let out = arg(args, "--out").expect("--out");
+    let t0 = Instant::now();
+    let m = match prop.as_str() {
+        "C06" => minted::hidden_assertion(seed, tier == "thorough"),
+        _ => minted::footer_segment(seed, tier == "thorough"),
+    };
+    let s = json!({"prop": prop, "evaluations": m.evaluations, "violations": m.violations, "rule": m.rule,
+                   "wall_s": t0.elapsed().as_secs_f64()});
+    std::fs::write(&out, serde_json::to_string_pretty(&s).unwrap()).expect("write");
+    if m.violations.is_empty() { 0 } else { 1 }
 }
 
 fn main() {
     let args: Vec<String> = std::env::args().collect();
     let code = match args.get(1).map(|s| s.as_str()) {
         Some("smoke") => smoke(),
+        Some("replay-core") => replay_core(&args),
+        Some("minted-checks") => minted_checks(&args),
         _ => {
-            eprintln!("usage: pv <smoke|...>");
+            eprintln!("usage: pv <smoke|replay-core> ...");
             2
         }
     };
